@@ -7,13 +7,44 @@ import time
 
 from lib import *
 
+import concurrent.futures
+import shutil
+import subprocess
+import tempfile
+
+
+def e2e_create(r):
+    """`scrut create` for the command that writes exactly this output, then `scrut test` on the created document"""
+    root = tempfile.mkdtemp(prefix="scrut-verif-gen-", dir=os.environ.get("VERIF_SCRATCH", "/tmp"))
+    try:
+        cmd = "printf '" + "".join("\\%03o" % b for b in r["output_bytes"]) + "'" if r["output_bytes"] else "true"
+        if r["code"] != 0:
+            cmd += f"; (exit {r['code']})"
+        ext = "md" if r["fmt"] == "md" else "t"
+        doc = os.path.join(root, "created." + ext)
+        env = dict(os.environ, TMPDIR=os.path.join(root, "tmp"), NO_COLOR="1")
+        env.pop("SCRUT_VERIF_TRACE", None)
+        os.makedirs(env["TMPDIR"])
+        c = subprocess.run([SCRUT_BIN, "create", "--no-color", "--format", "markdown" if r["fmt"] == "md" else "cram", "--escaping", r["esc"],
+                            "-o", doc, "--", cmd], cwd=root, env=env, stdout=subprocess.PIPE, stderr=subprocess.PIPE, timeout=60)
+        if c.returncode != 0 or not os.path.exists(doc):
+            return {"ok": False, "stage": "create", "detail": c.stderr.decode("utf-8", "replace")[-200:], "document": ""}
+        t = subprocess.run([SCRUT_BIN, "test", "--no-color", "-r", "json", doc], cwd=root, env=env, stdout=subprocess.PIPE, stderr=subprocess.PIPE, timeout=60)
+        text = open(doc, errors="replace").read()
+        return {"ok": t.returncode == 0, "stage": "test", "detail": f"exit {t.returncode} " + t.stdout.decode("utf-8", "replace")[:300], "document": text}
+    except subprocess.TimeoutExpired:
+        return {"ok": False, "stage": "timeout", "detail": "", "document": ""}
+    finally:
+        shutil.rmtree(root, ignore_errors=True)
+
+
 WHAT = "a generated test does not parse back to one test with the same command that passes on the output it was generated from"
 
 
 def run(prop, tier, replay=None):
     t0 = time.time()
     work = workdir(f"{prop}-{tier}")
-    build_s = build()
+    build_s = build(need_scrut_bin=True)
     V = Verdicts(prop)
     s = seed()
     cov = {}
@@ -40,6 +71,20 @@ def run(prop, tier, replay=None):
     write_ndjson(vpath, vectors)
     harness(["gen-replay", "--vectors", vpath, "--records", rpath, "--seed", s])
     records = read_ndjson(rpath)
+    # end to end: for `create` cases, really run `scrut create` and then `scrut test` on what it wrote; the observation
+    # "passes" is the conjunction of the library pipeline and the real run
+    import random
+    rnd = random.Random(s * 13 + 1)
+    cand = [r for r in records if r["path"] == "create" and r["obs"]["passes"] and r["obs"]["same_cmd"]]
+    sample = cand if replay else rnd.sample(cand, min(len(cand), 120 if tier == "quick" else 1500))
+    with concurrent.futures.ThreadPoolExecutor(max_workers=min(NCPU, 12)) as ex:
+        for r, e in zip(sample, ex.map(e2e_create, sample)):
+            r["e2e"] = e
+            if not e["ok"]:
+                r["obs"]["passes"] = False
+                r["obs"]["detail"] = f"end to end ({e['stage']}): {e['detail']}"
+                r["obs"]["text"] = e["document"] or r["obs"]["text"]
+    cov["end_to_end_create_then_test"] = len(sample)
     tcfg = os.path.join(work, "Trace.cfg")
     with open(tcfg, "w") as f:
         f.write(f"SPECIFICATION TraceSpec\nCONSTANTS\n  K = {k}\nINVARIANTS Verdicts\nPOSTCONDITION Accepted\nCHECK_DEADLOCK FALSE\n")
@@ -70,7 +115,10 @@ def run(prop, tier, replay=None):
         r = byid[rid]
         o = r["obs"]
         culprits = sorted({c for c in r["lines"] if (r["fmt"], c) in single_any})
-        if culprits:
+        if "e2e" in r and not r["e2e"]["ok"]:
+            specials = sorted({c for c in r["lines"] if c != "plain"})
+            keys = [f"end-to-end:create-then-test:{r['e2e']['stage']}:fmt={r['fmt']};classes={'+'.join(specials) or 'plain'};{'no-final-eol;' if not r['lastEol'] else ''}esc={r['esc']};code={r['code']}"]
+        elif culprits:
             keys = [f"fmt={r['fmt']};class={c};{'/'.join(sorted(single_any[(r['fmt'], c)]))}" for c in culprits]
         else:
             specials = sorted({c for c in r["lines"] if c != "plain"})
